@@ -525,6 +525,7 @@ type Contract struct {
 	Asserts  []*Clause
 	Fresh    []string // results / places declared fresh (not aliasing any input)
 	MaybeNil []string
+	Reads    map[string][2]int64 // `reads p[lo:hi]`: the function depends on parameter p only through p[lo:hi]
 	Used     bool
 }
 
@@ -554,8 +555,13 @@ type ContractSet struct {
 var clauseKeywords = map[string]bool{
 	"func": true, "props": true, "requires": true, "ensures": true, "assigns": true, "loop": true, "alias": true,
 	"inline": true, "trusted": true, "panics": true, "nooverflow": true, "lemma": true, "pure": true, "opaque": true,
-	"extern": true, "assert": true, "fresh": true, "maybenil": true, "package": true, "pred": true, "tagset": true,
+	"extern": true, "assert": true, "fresh": true, "maybenil": true, "package": true, "pred": true, "tagset": true, "aset": true, "reads": true,
 }
+
+// assignSets: `//@ aset name := $.f, $.g[0:4]` — a reusable list of assigns items, `$` is the argument.
+type assignSet struct{ items []string }
+
+var assignSets = map[string]assignSet{}
 
 // tagSets: named groups of property ids (`//@ tagset DIL := C12 C03 C05 C07`), expanded inside [..].
 var tagSets = map[string][]string{}
@@ -627,6 +633,18 @@ func (cs *ContractSet) ReadFile(path, pkgName string, external bool) error {
 		switch kw {
 		case "package":
 			pkgName = rest
+		case "aset":
+			i := strings.Index(rest, ":=")
+			if i < 0 {
+				return fmt.Errorf("%s: aset NAME := $.f, ...", l.pos)
+			}
+			var as assignSet
+			for _, it := range splitTopLevel(rest[i+2:], ',') {
+				if it = strings.TrimSpace(it); it != "" {
+					as.items = append(as.items, it)
+				}
+			}
+			assignSets[strings.TrimSpace(rest[:i])] = as
 		case "tagset":
 			i := strings.Index(rest, ":=")
 			if i < 0 {
@@ -743,10 +761,21 @@ func (cs *ContractSet) ReadFile(path, pkgName string, external bool) error {
 				}
 				cur.Asserts = append(cur.Asserts, c)
 			case "assigns":
-				for _, item := range splitTopLevel(rest, ',') {
-					item = strings.TrimSpace(item)
+				items := splitTopLevel(rest, ',')
+				for k := 0; k < len(items); k++ {
+					item := strings.TrimSpace(items[k])
 					if item == "" || item == "nothing" {
 						continue
+					}
+					// assign-set macro: name(arg)
+					if i := strings.Index(item, "("); i > 0 && strings.HasSuffix(item, ")") {
+						if as, ok := assignSets[item[:i]]; ok {
+							arg := strings.TrimSpace(item[i+1 : len(item)-1])
+							for _, m := range as.items {
+								items = append(items, strings.ReplaceAll(m, "$", arg))
+							}
+							continue
+						}
 					}
 					e, err := ParseCExpr(item, l.pos)
 					if err != nil {
@@ -807,6 +836,17 @@ func (cs *ContractSet) ReadFile(path, pkgName string, external bool) error {
 				default:
 					return fmt.Errorf("%s: unknown loop clause %q", l.pos, f[1])
 				}
+			case "reads":
+				// reads p[lo:hi]
+				var name string
+				var lo, hi int64
+				if _, err := fmt.Sscanf(strings.ReplaceAll(strings.ReplaceAll(strings.ReplaceAll(rest, "[", " "), ":", " "), "]", " "), "%s %d %d", &name, &lo, &hi); err != nil {
+					return fmt.Errorf("%s: reads p[lo:hi] with constant bounds", l.pos)
+				}
+				if cur.Reads == nil {
+					cur.Reads = map[string][2]int64{}
+				}
+				cur.Reads[name] = [2]int64{lo, hi}
 			case "alias":
 				f := strings.Fields(rest)
 				if len(f) != 2 {
